@@ -6,6 +6,11 @@ def parseOps : List String → Bytes → Option (List Op)
   | [], rest => if rest.isEmpty then some [] else none
   | t :: ts, src =>
     match t.splitOn ":" with
+    | ["i", n] => do   -- XORKeyStream in place (dst = src): same function of contents
+      let n ← n.toNat?
+      if src.length < n then none else
+      let r ← parseOps ts (src.drop n)
+      pure (Op.xor (src.take n) :: r)
     | ["x", n] => do
       let n ← n.toNat?
       if src.length < n then none else
@@ -29,7 +34,8 @@ def showRun (ops : List Op) (r : List Bytes × Option Panic) : String :=
     | some _ => ["panic"]
   "|".intercalate ("ok" :: outs ++ tail)
 
-/-- `hist [m=4] key=<hex> nonce=<hex> ops=x:70,s:5,x:64 src=<hex>`  → `ok|<hex>|ok|<hex>` / `…|panic` / `err`
+/-- `hist [m=4] key=<hex> nonce=<hex> ops=x:70,s:5,x:64 src=<hex>`  → `ok|<hex>|ok|<hex> mut=-` / `…|panic mut=-` / `err mut=-`  (`i:n` = in-place call;
+    `mut=` reports writes to caller memory outside dst[:len(src)]: the model is a function of contents, so `-`)
     `hchacha key=<hex> nonce=<hex>`                           → `<hex>` / `err` -/
 def handle (line : String) : String :=
   let o := parseOp line
@@ -46,15 +52,15 @@ def handle (line : String) : String :=
         let m := (o.nat? "m").getD 1
         if m = 0 || m > 8 then "bad-op" else
         match newCipher m key nonce with
-        | none => "err"
-        | some c => showRun ops (run m c ops)
+        | none => "err mut=-"
+        | some c => showRun ops (run m c ops) ++ " mut=-"
     | _, _, _, _ => "bad-op"
   else if o.cmd == "hchacha" then
     match o.hex? "key", o.hex? "nonce" with
     | some key, some nonce =>
       match hChaCha20Go key nonce with
-      | none => "err"
-      | some b => toHex b
+      | none => "err mut=-"
+      | some b => toHex b ++ " mut=-"
     | _, _ => "bad-op"
   else "bad-op"
 
